@@ -111,6 +111,9 @@ impl Engine for C06 {
             Tier::Thorough => 12000,
         }
     }
+    fn fresh_process_per_run(&self) -> bool {
+        true
+    }
     fn cpu_budget_s(&self, _tier: Tier) -> f64 {
         20.0
     }
